@@ -73,7 +73,10 @@ class Script:
         if o == "o":
             return
         if o == "f":
-            raise RuntimeError("keep-alive failed")
+            # failures come in the exception classes real senders raise (a timeout is an
+            # OSError on Python >= 3.11); the loop must treat them all alike
+            kinds = [RuntimeError, asyncio.TimeoutError, OSError, ConnectionResetError, ValueError]
+            raise kinds[self.i % len(kinds)]("keep-alive failed")
         asyncio.current_task().cancel()
         await asyncio.sleep(0)
 
@@ -128,7 +131,7 @@ async def run_mrp(protocol_mod, sc):
     return sc
 
 
-async def run_ap2(protocol_mod, sc):
+async def run_ap2(protocol_mod, sc, late=False):
     """AP2Session.start_keep_alive: failure -> connection_lost, cancel -> connection_closed."""
     from pyatv.protocols.airplay import ap2_session
     from pyatv.support.state_producer import StateProducer
@@ -146,10 +149,25 @@ async def run_ap2(protocol_mod, sc):
 
     producer = StateProducer()
     lst = Listener()
-    producer.listener = lst
+    if late:
+        # the normal flow: atv = await connect(...) starts the keep-alive, the user
+        # assigns atv.listener afterwards (here: a placeholder first, then the real one)
+        class Old:
+            def connection_lost(self, exc):
+                sc.record("stale-listener")
+
+            def connection_closed(self):
+                sc.record("stale-listener")
+
+        old = Old()
+        producer.listener = old
+    else:
+        producer.listener = lst
     sess = ap2_session.AP2Session("127.0.0.1", 7000, None, None)
     sess.rtsp = Rtsp()
     sess.start_keep_alive(producer)
+    if late:
+        producer.listener = lst
     await _drive(sess._feedback_task, sc)
     return sc
 
@@ -280,6 +298,8 @@ def execute(protocol_mod, cases):
                 coro = run_plain(protocol_mod, r, sc)
             elif variant == "mrp":
                 coro = run_mrp(protocol_mod, sc)
+            elif variant == "ap2late":
+                coro = run_ap2(protocol_mod, sc, late=True)
             else:
                 coro = run_ap2(protocol_mod, sc)
             loop.run_until_complete(coro)
@@ -320,6 +340,7 @@ def run(ctx, only=None):
     for s in scripts(wiring_len):
         cases.append(("mrp", default_r, s))
         cases.append(("ap2", default_r, s))
+        cases.append(("ap2late", default_r, s))
     ctx.exhaustive = True
     if only is not None:
         cases = only
